@@ -34,7 +34,7 @@ def _nan(x):
     return isinstance(x, float) and math.isnan(x)
 
 
-def c14_fva(E, procs=(2,), templates=(("T2", ("EX_A",)), ("T2", ("R1",))), nitems=3):
+def c14_fva(E, procs=(2,), templates=(("T2", ("EX_A",)),), nitems=2):
     env.for_path(E)
     _install_pool(E)
     tid, which = E.pick("template", templates)
@@ -100,7 +100,7 @@ def c14_deletion(E, procs=(2,)):
 
 HARNESSES = [
     H("c14_fva", c14_fva, tiers=("quick",), quick=dict(max_paths=6000, time_budget=80), witness_every=40,
-      bounds="T2 with 1 symbolic reaction (EX_A or R1); 3 requested reactions in 3 permutations; 2 workers; chunking as computed by the code; "
+      bounds="T2 with 1 symbolic reaction (EX_A); 2 requested reactions in both orders; 2 workers; chunking as computed by the code; "
              "every chunk->worker assignment x every completion order (both pools: minimum and maximum)"),
     H("c14_deletion", c14_deletion, tiers=("quick",), quick=dict(max_paths=6000, time_budget=60), witness_every=40,
       bounds="T8, one symbolic reaction; single and double reaction / gene deletion of 3 items in 2 orders; 2 workers; all "
